@@ -249,10 +249,15 @@ static int operand_tok(struct instr *instr_buffer, char *opds, int opd_pos) {
   check_for_keyword(instr_buffer, all_opd, opd_pos);
   // get the operand type can be 'i', 'r', or 'm'
   instr_buffer->opd[opd_pos].type = get_operand_type(all_opd);
-  // a size keyword in front of an immediate that follows other operands
+  // a size keyword in front of an immediate that follows a register operand
   // (nasm: `add rax, byte 5`) hints at the width of the immediate only: the
-  // operand size is that of the other operands
-  if (instr_buffer->opd[opd_pos].type == 'i' && opd_pos != FIRST_OPERAND) {
+  // operand size is that of the register. (Behind a memory operand alone it
+  // sizes that operand: `mov [rax], byte 5`.)
+  bool sized_by_reg = false;
+  for (int k = 0; k < opd_pos; k++)
+    if (instr_buffer->opd[k].type != 'm')
+      sized_by_reg = true;
+  if (instr_buffer->opd[opd_pos].type == 'i' && sized_by_reg) {
     instr_buffer->keyword.is_byte = before.is_byte;
     instr_buffer->keyword.is_word = before.is_word;
     instr_buffer->keyword.is_dword = before.is_dword;
